@@ -367,7 +367,8 @@ def run(ctx):
     from rules import lib_attach
     rho = ctx.rule('R-HANDOFF', 'a When* combinator is not touched after its last input has been registered: the registration loop\'s condition / increment and the code after it work on locals only', minimum=2)
     for cfg, fb in sorted(fbs.items()):
-        from rules import lib_when as _lw2
+        from rules import lib_when as _lw2, lib_handoff as _lh
+        ctx.guard(lambda: _lh.check_handoff_helpers(ctx, fb, rho))
         if (ctx.guard(lambda: _lw2.check_handoff_loops(ctx, fb, rho)) or 0) < 1:
             ctx.guard(lambda: ctx.broken('R-HANDOFF: no registration loop of a When* combinator found'))
         ctx.guard(lambda: lib_attach.check_adopt(ctx, fb, rad, 4))
